@@ -710,6 +710,16 @@ def main(argv=None):
         c03_zoned.zoned_check(ck)
     except Exception as ex:  # noqa: BLE001 -- a stream that cannot run is a broken tie, not a crash
         ck.disagreement("zoned-windows", f"the zoned-window stream could not run: {type(ex).__name__}: {ex}", {"kind": "zoned-window"})
+    # round 6: a second thread beside a read (harness/store_sched.py, harness/twothreads.py): thread A - a read of the memory
+    # store, windowed or not, or a single insert - is suspended inside an item lookup of an Event (the sort key) or inside
+    # copy.deepcopy while thread B reads / inserts / deletes; a read beside nothing but reads returns what it returns
+    # afterwards, every bucket reads the same while the read is in progress and after it, every returned write is there
+    try:
+        from . import store_sched as ss
+        scns = ss.pick(ck.rng, ss.thread_scenarios(backends=("memory",)), 10 ** 9)
+        ss.check(ck, "C03", ss.C03_KINDS, scns, "threads")
+    except Exception as ex:  # noqa: BLE001
+        ck.disagreement("threads", f"the two-thread stream could not run: {type(ex).__name__}: {ex}", {"kind": "two-threads"})
     return ck.finish(RULE)
 
 
